@@ -58,3 +58,18 @@ Proof.
   intros Ho Hf. apply history_oracle_sound; [exact Ho|]. rewrite Forall_forall in *. intros o Hin.
   apply served_rules_served; [exact Ho|apply Hf; exact Hin].
 Qed.
+
+(* ------------------------------------------------------------------ range reads *)
+Lemma pairs_eqb_eq : forall a b, pairs_eqb a b = true <-> a = b.
+Proof.
+  induction a as [|[k1 v1] r1 IH]; intros [|[k2 v2] r2]; cbn [pairs_eqb]; split; intros H; try reflexivity; try discriminate.
+  - apply andb_true_iff in H. destruct H as [H H3]. apply andb_true_iff in H. destruct H as [H1 H2].
+    apply N.eqb_eq in H1, H2. apply IH in H3. congruence.
+  - inversion H; subst. rewrite !N.eqb_refl. cbn [andb]. apply IH. reflexivity.
+Qed.
+
+(* the scan checker accepts exactly the answers that list, in key order, the own-write-or-history read of every key of
+   the range that has a value: none missing, none extra *)
+Lemma scan_ok_exact H o : scan_ok H o = true <->
+  so_res o = flat_map (fun k => match scan_expect H o k with Some v => [(k, v)] | None => [] end) (so_keys o).
+Proof. unfold scan_ok, scan_want. rewrite pairs_eqb_eq. split; intros E; congruence. Qed.
